@@ -15,14 +15,26 @@ META = {
     "level": "proof",
     "technique": (
         "Coq proofs over an arithmetic-generic Gallina model of peoe.equilibrate (exact field Q), the formal-charge "
-        "decision table, the radius lookup chain and the ligand transfer loop of main.non_trivial; the model is tied to "
-        "the code by differential execution (binary64 instance bit-for-bit, Q instance <= 1e-9, tables regenerated from "
-        "/repo, the transfer loop's own source text executed on generated residue lists)"
+        "decision table, the radius lookup chain, the ligand transfer loop of main.non_trivial, and a line/word-level model "
+        "of Mol2Molecule.read (section detection, ATOM/BOND record fields, bond-type words, atom ids -> positions with "
+        "Python indexing, duplicate names, what raises); the model is tied to the code by differential execution (MOL2 "
+        "TEXTS through the real reader vs mol_of_string, text -> charges end to end, binary64 instance bit-for-bit, Q "
+        "instance <= 1e-9, tables regenerated from /repo, the transfer loop's own source text executed on generated "
+        "residue lists)"
     ),
     "level_text": (
         "Proved for ALL atom counts, bond lists, electronegativity functions, damping/scale factors and cycle counts >= 1: "
         "equilibrate conserves the sum of the entry (formal) charges, and relabelling the atoms permutes the result "
-        "exactly; every radius returned is a positive zap9/Bondi entry; assign_parameters end to end. The clause 'ligand "
+        "exactly; every radius returned is a positive zap9/Bondi entry; assign_parameters end to end, and (new) its "
+        "equivariance under atom permutation as one statement. Proved for ALL molecules of the reader's domain (any "
+        "number of atoms/bonds, connectivity, ids; fields blank-free words without '@', float() an arbitrary oracle): the "
+        "reader returns exactly the molecule whose canonical Tripos rendering it is given, under any header/trailer "
+        "(round trip: nothing dropped, duplicated, reordered, re-wired, no column mix-up); permuting ATOM records with "
+        "renumbered bond atom ids yields the permuted molecule; renaming changes nothing but names. "
+        "C16_text_order_independent_partial composes text -> charges: labelled PARTIAL because it is over exact "
+        "arithmetic and over canonically rendered texts (other spellings are covered by the tie, not by proof). "
+        "Refuted with witnesses: bond atom id 0 / negative ids index from the end (input outside the quantifier: "
+        "observation) and 8-field ATOM records raise IndexError (finding C16-F5, known). The clause 'ligand "
         "parameters only on ligand atoms, each written once' is proved for ALL residue lists for the ligand loop of "
         "main.non_trivial as coded after the repair of finding C16-F4: only residues selected by the loop's condition "
         "(MOL2 residue name, or - placeholder name - exactly the MOL2 heavy atoms) are touched, no atom is written twice, "
@@ -32,8 +44,10 @@ META = {
     "level_note": (
         "Trusted: Coq kernel + vm_compute; the hand-written model (tied by correspondence, not by a Python semantics); "
         "binary64 rounding is not verified (the exact-field theorems hold for the Q instance; the float instance agrees "
-        "with CPython bit for bit on all cases run and the real sums deviate < 1e-9); MOL2 text parsing is exercised "
-        "through the real reader but modelled only from the parsed type/bond level (type normalisation included)."
+        "with CPython bit for bit on all cases run and the real sums deviate < 1e-9); the reader model covers ASCII text "
+        "(str.split/strip blanks \\t-\\r, \\x1c-\\x20), int() = sign/digits/single underscores, float() = an oracle in the theorems "
+        "and the ASCII float grammar of Model/PqrFormat.v in the executed instance; set_torsions/set_rings (called by "
+        "parse_bonds, results unused by assign_parameters) are not modelled and assumed not to raise."
     ),
     "design_ref": "DESIGN.md 4 C16, 5 F4",
 }
@@ -52,6 +66,15 @@ THEOREMS = [
     "C16_transfer_old_loop_refuted",
     "C16_formal_charge_equivariant",
     "C16_nonvacuous",
+    "C16_assign_parameters_relabel",
+    "C16_mol2_read_roundtrip",
+    "C16_mol2_order_equivariance",
+    "C16_text_order_independent_partial",
+    "C16_mol2_names_irrelevant",
+    "C16_mol2_bond_id_zero_refuted",
+    "C16_mol2_bond_ids_partial",
+    "C16_mol2_eight_words_refuted",
+    "C16_mol2_nonvacuous",
 ]
 ALLOWED_AXIOMS: list = []
 
@@ -353,11 +376,16 @@ def mol2_text(types, bonds, names, coords=None, resname="LIG", resseq=1):
 # implementation drivers
 
 
+def open_like_main(text):
+    """what `open(path, encoding="utf-8")` iterates over (universal newlines)"""
+    return _io.TextIOWrapper(_io.BytesIO(text.encode("utf-8")), encoding="utf-8")
+
+
 def impl_read(text):
     from pdb2pqr.ligand.mol2 import Mol2Molecule
 
     m = Mol2Molecule()
-    m.read(_io.StringIO(text))
+    m.read(open_like_main(text))
     return m
 
 
@@ -1069,6 +1097,505 @@ def build_complexes(rng, thorough):
 
 
 # --------------------------------------------------------------------------
+# TEXT level: the MOL2 text itself -> Mol2Molecule.read  vs  Model.Mol2Read.mol_of_string
+# (section detection, record fields, bond-type words, atom ids -> positions, what raises),
+# and text -> charges end to end (real assign_parameters on the text vs model pipeline).
+
+HEADER_T = (
+    "From Coq Require Import String List ZArith.\nFrom PV Require Import Lib.Strings Model.Peoe Model.Mol2Read.\n"
+    "Import ListNotations.\nOpen Scope string_scope.\n"
+)
+READ_SITE = "Mol2Molecule.read"
+EIGHT_WORD_TEXT = ("@<TRIPOS>MOLECULE\nx\n 2 1 1 0 0\nSMALL\nNO_CHARGES\n\n@<TRIPOS>ATOM\n"
+                   "1 C1 0.0 0.0 0.0 C.3 1 LIG\n2 O1 1.4 0.0 0.0 O.3 1 LIG\n@<TRIPOS>BOND\n1 1 2 1\n@<TRIPOS>SUBSTRUCTURE\n")
+BOND_TYPE_NAME = {"1": "single", "2": "double", "3": "triple", "ar": "aromatic"}
+
+
+def canon_type(raw):
+    """ground-truth spelling of a Sybyl type word (the generator's own, not the reader's)"""
+    p = raw.split(".")
+    return p[0][:1].upper() + p[0][1:].lower() + ("." + p[1].lower() if len(p) == 2 else "")
+
+
+def same_float(a, b):
+    return a == b or (a != a and b != b)
+
+
+def impl_text_obs(text):
+    """The real reader on a text: ("RAISE", class) or ("OK", atoms, bonds) in the model's layout."""
+    from pdb2pqr.ligand.mol2 import Mol2Molecule
+
+    m = Mol2Molecule()
+    try:
+        m.read(open_like_main(text))
+    except Exception as e:  # noqa
+        return ("RAISE", type(e).__name__)
+    names = list(m.atoms.keys())
+    pos = {id(a): k for k, a in enumerate(m.atoms.values())}
+    atoms = [(a.serial, a.name, a.x, a.y, a.z, a.type, a.res_seq, a.res_name, a.mol2charge) for a in m.atoms.values()]
+    bonds = []
+    for b in m.bonds:
+        bonds.append((b.bond_id, pos.get(id(b.atoms[0]), -1), pos.get(id(b.atoms[1]), -1), b.type))
+    # the per-atom views must agree with the bond list (adjacency built line by line, both ways)
+    adj = [[] for _ in names]
+    for _bid, p1, p2, _t in bonds:
+        if p1 >= 0 and p2 >= 0:
+            adj[p1].append(p2)
+            adj[p2].append(p1)
+    for k, a in enumerate(m.atoms.values()):
+        if [pos.get(id(x), -1) for x in a.bonded_atoms] != adj[k] or len(a.bonds) != len(adj[k]):
+            return ("OK-INCONSISTENT", atoms, bonds)
+    return ("OK", atoms, bonds)
+
+
+def parse_model_read(s):
+    """show_result of the model -> the same layout (numbers as text turned into floats by float())"""
+    if s.startswith("RAISE "):
+        return ("RAISE", s[6:])
+    w = s.split(" ")
+    if w[0] != "OK":
+        return ("BAD", s[:80])
+    n, nb = int(w[1]), int(w[2])
+    body = w[3:]
+    if len(body) != 9 * n + 4 * nb:
+        return ("BAD", s[:80])
+    atoms, bonds = [], []
+    for k in range(n):
+        f = body[9 * k : 9 * k + 9]
+        atoms.append((int(f[0]), f[1], float(f[2]), float(f[3]), float(f[4]), f[5], int(f[6]), f[7], None if f[8] == "~" else float(f[8])))
+    for k in range(nb):
+        f = body[9 * n + 4 * k : 9 * n + 4 * k + 4]
+        bonds.append((int(f[0]), int(f[1]), int(f[2]), BOND_TYPE_NAME[f[3]]))
+    return ("OK", atoms, bonds)
+
+
+def same_obs(a, b):
+    if a[0] != b[0]:
+        return False
+    if a[0] != "OK":
+        return a[1] == b[1]
+    if len(a[1]) != len(b[1]) or a[2] != b[2]:
+        return False
+    for x, y in zip(a[1], b[1]):
+        for u, v in zip(x, y):
+            if isinstance(u, float) and isinstance(v, float):
+                if not same_float(u, v):
+                    return False
+            elif u != v:
+                return False
+    return True
+
+
+def first_difference(exp, got):
+    """which field of the parsed molecule differs from the text's ground truth (for the signature)"""
+    fields = ("serial", "name", "x", "y", "z", "type", "subst_id", "subst_name", "charge")
+    if got[0] != "OK":
+        return "raises:" + str(got[1]) if got[0] == "RAISE" else "adjacency-inconsistent"
+    if len(exp[1]) != len(got[1]):
+        return "atom-count"
+    for x, y in zip(exp[1], got[1]):
+        for f, u, v in zip(fields, x, y):
+            if not (same_float(u, v) if isinstance(u, float) and isinstance(v, float) else u == v):
+                return "atom-" + f
+    if len(exp[2]) != len(got[2]):
+        return "bond-count"
+    for x, y in zip(exp[2], got[2]):
+        for f, u, v in zip(("id", "atom1", "atom2", "type"), x, y):
+            if u != v:
+                return "bond-" + f
+    return None
+
+
+def gt_of(types, bonds, names, rng, raw_types=None, resname="LIG"):
+    """generator-level molecule with every record field as the TEXT will show it"""
+    atoms = []
+    for i, (t, nm) in enumerate(zip(types, names)):
+        fmt = rng.choice(["{:.4f}", "{:.3f}", "{:.1f}", "{:g}"])
+        xyz = [fmt.format(v) for v in (1.5 * i - 3.0, 0.3 * (i % 3) - 0.4, 0.7 * (i % 5))]
+        ch = rng.choice(["0.0000", "0.0", "-0.1234", "0", "1e-3", "+.25", "-1", ".5", "1_0.5"])
+        atoms.append({"serial": i + 1, "name": nm, "x": xyz[0], "y": xyz[1], "z": xyz[2], "type_raw": raw_types[i] if raw_types else t,
+                      "type": canon_type(t), "resseq": 1, "resname": resname, "charge": ch, "extra": []})
+    return {"atoms": atoms, "bonds": [{"bid": k + 1, "a1": a, "a2": b, "word": w, "extra": []} for k, (a, b, w) in enumerate(bonds)]}
+
+
+def gt_expected(gt):
+    atoms = [(a["serial"], a["name"], float(a["x"]), float(a["y"]), float(a["z"]), a["type"], a["resseq"], a["resname"][:4],
+              None if a["charge"] is None else float(a["charge"])) for a in gt["atoms"]]
+    bonds = [(b["bid"], b["a1"], b["a2"], BOND_TYPE_NAME[b["word"]]) for b in gt["bonds"]]
+    return ("OK", atoms, bonds)
+
+
+def simple_parse(text):
+    """independent reading of a STORED, conventionally laid out MOL2 file (ground truth for re-rendering)"""
+    lines = text.splitlines()
+    sec = [k for k, l in enumerate(lines) if l.startswith("@<TRIPOS>")]
+    ia = next(k for k in sec if lines[k].strip() == "@<TRIPOS>ATOM")
+    ib = next(k for k in sec if lines[k].strip() == "@<TRIPOS>BOND")
+    ie = next((k for k in sec if k > ib), len(lines))
+    atoms, bonds = [], []
+    for l in lines[ia + 1 : ib]:
+        w = l.split()
+        if w:
+            atoms.append({"serial": int(w[0]), "name": w[1], "x": w[2], "y": w[3], "z": w[4], "type_raw": w[5], "type": canon_type(w[5]),
+                          "resseq": int(w[6]), "resname": w[7], "charge": w[8] if len(w) > 8 else None, "extra": w[9:]})
+    for l in lines[ib + 1 : ie]:
+        w = l.split()
+        if w:
+            bonds.append({"bid": int(w[0]), "a1": int(w[1]) - 1, "a2": int(w[2]) - 1, "word": w[3], "extra": w[4:]})
+    return {"atoms": atoms, "bonds": bonds, "header": lines[:ia], "trailer": lines[ie + 1 :]}
+
+
+SEP_SETS = [[" "], ["  ", " ", "   "], ["\t"], [" ", "\t", "  \t "], ["      "], [" \x0c ", " ", "\x0b", " \x1c", "\x1d ", "\x1e", "\x1f "]]
+HEADERS = [
+    ["@<TRIPOS>MOLECULE", "lig", " {n} {nb} 1 0 0", "SMALL", "NO_CHARGES", "", ""],
+    ["# Name: generated", "# Creating user name: verif", "", "@<TRIPOS>MOLECULE", "lig", "{n} {nb} 1", "SMALL", "USER_CHARGES"],
+    ["@<TRIPOS>MOLECULE", "*****", " {n} {nb} 0 0 0", "SMALL", "GASTEIGER", "", "@<TRIPOS>COMMENT", "atoms follow; bonds after", ""],
+    [],
+    ["", "   ", "@<TRIPOS>MOLECULE", "m", "{n} {nb}", "PROTEIN", "NO_CHARGES", "****", "a comment line"],
+]
+TRAILERS = [
+    ["     1 LIG         1 TEMP              0 ****  ****    0 ROOT"],
+    [],
+    ["1 LIG 1", "", "@<TRIPOS>SET", "STATIC ATOMS", "1 2", "1 1 1 1", "9 9 9 am"],
+]
+
+
+def render_text(rng, gt, style=None, header=None, trailer=None):
+    """One spelling of the molecule: column widths / separators / tabs / rare blanks, blank lines between records,
+    header variants (comments, other sections before ATOM), trailer (SUBSTRUCTURE + anything, or nothing), LF / CRLF / CR."""
+    st = style or {}
+    seps = st.get("seps") or rng.choice(SEP_SETS)
+    eol = st.get("eol") or rng.choice(["\n", "\n", "\r\n", "\r"])
+    widths = st.get("widths", rng.random() < 0.5)
+    blank_p = st.get("blank_p", rng.choice([0.0, 0.0, 0.15]))
+    n, nb = len(gt["atoms"]), len(gt["bonds"])
+
+    def line(words, ws):
+        if widths:
+            words = [w.rjust(k) if j % 2 == 0 else w.ljust(k) for j, (w, k) in enumerate(zip(words, ws + [0] * len(words)))]
+        out = words[0]
+        for w in words[1:]:
+            out += rng.choice(seps) + w
+        return rng.choice(["", "", " ", "\t", "   "]) + out + rng.choice(["", "", " ", "  \t"])
+
+    L = list(header) if header is not None else [h.format(n=n, nb=nb) for h in rng.choice(HEADERS)]
+    L.append("@<TRIPOS>ATOM" + rng.choice(["", "", " ", "  "]))
+    for a in gt["atoms"]:
+        words = [str(a["serial"]), a["name"], a["x"], a["y"], a["z"], a["type_raw"], str(a["resseq"]), a["resname"]]
+        words += ([a["charge"]] if a["charge"] is not None else []) + list(a["extra"])
+        L.append(line(words, [7, 8, 10, 10, 10, 7, 3, 4, 10]))
+        if rng.random() < blank_p:
+            L.append(rng.choice(["", "  ", "\t", " \x0c"]))
+    L.append(rng.choice(["", " "]) + "@<TRIPOS>BOND")
+    for b in gt["bonds"]:
+        L.append(line([str(b["bid"]), str(b["a1"] + 1), str(b["a2"] + 1), b["word"]] + list(b["extra"]), [6, 4, 4, 4]))
+        if rng.random() < blank_p:
+            L.append("")
+    tr = trailer if trailer is not None else rng.choice(TRAILERS + [None])
+    if tr is not None:
+        L.append("@<TRIPOS>SUBSTRUCTURE")
+        L += tr
+    return eol.join(L) + (eol if rng.random() < 0.85 else "")
+
+
+BAD_INTS = ["x", "1.0", "+3", "1_0", "-2", "0x1", "1__0", "_1", "1_", "007", "-0", "1e2", "--1", "+"]
+BAD_FLOATS = ["abc", "1e3", "inf", "-Infinity", "nan", ".5", "5.", "1_0.5", "1,5", "0x10", "1e", "--1", "+.5e-3", "1_", "1__0", "NaN",
+              "iNf", "infinit", "1d3", "e5", ".", "1.e1", "-.e1", "1e+", "1e-_1", "+nan", "1.2.3", "1E5", "0_0", "_0"]
+BAD_TYPES = ["c.a.r", "C.3.", ".", "C..", "c.AR", "CL", "cl", "c.3", "O.CO2", "Du", "LP", "N.PL3", "1", "n.4", "..", "C.3.x.y", "br", ".3"]
+BAD_BWORDS = ["am", "du", "un", "nc", "AR", "Ar", "4", "1.5", "single", "aR", "0", "AM", "nC", "ar.", "1_", "+1", "01"]
+
+
+def gen_malformed_text(rng):
+    """(text, label): one defect (or one rarely used but legal spelling) in an otherwise plain small file."""
+    g = gen_wild(rng)
+    n = g.n()
+    names = default_names(g.types)
+    A = [[str(i + 1), names[i], f"{1.5 * i:.3f}", "0.000", f"{0.7 * i:.3f}", g.types[i], "1", "LIG", "0.0000"] for i in range(n)]
+    B = [[str(k + 1), str(a + 1), str(b + 1), w] for k, (a, b, w) in enumerate(g.bonds)]
+    if not B:
+        B = [["1", "1", "1", "1"]]
+    head = ["@<TRIPOS>MOLECULE", "lig", f"{n} {len(B)} 1 0 0", "SMALL", "NO_CHARGES", ""]
+    marks = ["@<TRIPOS>ATOM", "@<TRIPOS>BOND", "@<TRIPOS>SUBSTRUCTURE"]
+    tail = ["1 LIG 1 TEMP 0 **** **** 0 ROOT"]
+    kinds = ["atom-words", "atom-serial", "atom-resseq", "atom-coord", "atom-charge", "atom-type", "atom-dup", "atom-dup-then-bad",
+             "atom-resname", "atom-name-marker", "bond-word", "bond-atomid", "bond-id", "bond-words", "no-atom-section", "bond-before-atom",
+             "no-bond-section", "section-between", "section-after-bond", "two-atom-sections", "marker-embedded", "marker-case",
+             "marker-in-comment", "no-substructure", "bonds-after-substructure", "empty", "blank-only", "atom-extra-fields"]
+    kind = rng.choice(kinds)
+    ia = rng.randrange(n)
+    ib = rng.randrange(len(B))
+    if kind == "atom-words":
+        A[ia] = A[ia][: rng.choice([1, 5, 6, 7, 8, 8, 8])]
+    elif kind == "atom-serial":
+        A[ia][0] = rng.choice(BAD_INTS)
+    elif kind == "atom-resseq":
+        A[ia][6] = rng.choice(BAD_INTS)
+    elif kind == "atom-coord":
+        A[ia][rng.choice([2, 3, 4])] = rng.choice(BAD_FLOATS)
+    elif kind == "atom-charge":
+        A[ia][8] = rng.choice(BAD_FLOATS)
+    elif kind == "atom-type":
+        A[ia][5] = rng.choice(BAD_TYPES)
+    elif kind in ("atom-dup", "atom-dup-then-bad"):
+        A.append([str(n + 1), names[ia], "9.0", "9.0", "9.0", "C.3", "1", "LIG", "0.0"])
+        if rng.random() < 0.5:
+            B.append([str(len(B) + 1), str(n + 1), "1", "1"])  # refers to the dropped record's position
+        if kind == "atom-dup-then-bad":
+            A.append([str(n + 2), "ZZ9", "9.0", "x", "9.0", "C.3", "1", "LIG", "0.0"][: rng.choice([9, 8, 7])])
+    elif kind == "atom-resname":
+        A[ia][7] = rng.choice(["LIGAND7", "ABCDE", "L", "<1>", "UNK1234"])
+    elif kind == "atom-name-marker":
+        A[ia][1] = rng.choice(["@<TRIPOS>BOND", "x@<TRIPOS>BONDy", "@<TRIPOS>ATOM", "@<TRIPOS>SUBSTRUCTURE", "@<TRIPOS>BON"])
+    elif kind == "bond-word":
+        B[ib][3] = rng.choice(BAD_BWORDS)
+    elif kind == "bond-atomid":
+        B[ib][rng.choice([1, 2])] = rng.choice(["0", "-1", str(-n), str(-n + 1), str(-n - 1), str(n + 1), str(n), "x", "1.0", "+1", "1_0", "0_1", "-0"])
+    elif kind == "bond-id":
+        B[ib][0] = rng.choice(["x", "1.5", "-3", "+2", "0", "1_1", "b1"])
+    elif kind == "bond-words":
+        B[ib] = B[ib][: rng.choice([1, 2, 3])]
+    elif kind == "atom-extra-fields":
+        A[ia] += rng.choice([["DSPMOD"], ["BACKBONE|DICT", "x"], ["1", "2", "3"]])
+        B[ib] += rng.choice([["BACKBONE"], ["DICT|INTERRES", "y"]])
+
+    def J(ws):
+        return rng.choice([" ", "  ", "\t"]).join(ws)
+
+    al, bl = [J(a) for a in A], [J(b) for b in B]
+    if kind == "no-atom-section":
+        L = head + [marks[1]] + bl + [marks[2]] + tail
+    elif kind == "bond-before-atom":
+        L = head + [marks[1]] + bl + [marks[0]] + al + rng.choice([[marks[2]] + tail, []])
+    elif kind == "no-bond-section":
+        L = head + [marks[0]] + al + rng.choice([[], [marks[2]] + tail])
+    elif kind == "section-between":
+        L = head + [marks[0]] + al + ["@<TRIPOS>UNITY_ATOM_ATTR", "1 1", "charge -1"] + [marks[1]] + bl + [marks[2]] + tail
+    elif kind == "section-after-bond":
+        L = head + [marks[0]] + al + [marks[1]] + bl + rng.choice([["@<TRIPOS>SET", "STATIC"], ["@<TRIPOS>CRYSIN", "1 1 1 90 90 90 1 1"],
+                                                                       ["@<TRIPOS>MOLECULE", "next"]]) + [marks[2]] + tail
+    elif kind == "two-atom-sections":
+        L = head + [marks[0]] + al[:1] + [marks[0]] + al[1:] + [marks[1]] + bl + [marks[2]] + tail
+    elif kind == "marker-embedded":
+        L = head + ["xx" + marks[0] + "yy"] + al + ["  # " + marks[1] + " follows"] + bl + ["zz" + marks[2]] + tail
+    elif kind == "marker-case":
+        k = rng.randrange(3)
+        mm = list(marks)
+        mm[k] = mm[k].lower() if rng.random() < 0.5 else mm[k].replace("TRIPOS", "Tripos")
+        L = head + [mm[0]] + al + [mm[1]] + bl + [mm[2]] + tail
+    elif kind == "marker-in-comment":
+        L = ["# the " + marks[0] + " section lists atoms"] + head + [marks[0]] + al + [marks[1]] + bl + [marks[2]] + tail
+    elif kind == "no-substructure":
+        L = head + [marks[0]] + al + [marks[1]] + bl
+    elif kind == "bonds-after-substructure":
+        L = head + [marks[0]] + al + [marks[1]] + bl + [marks[2]] + tail + ["7 1 1 am", "x", "8 99 99 1"]
+    elif kind == "empty":
+        L = []
+    elif kind == "blank-only":
+        L = ["", "   ", "\t"]
+    else:
+        L = head + [marks[0]] + al + [marks[1]] + bl + [marks[2]] + tail
+    eol = rng.choice(["\n", "\n", "\r\n", "\r"])
+    return eol.join(L) + (eol if L and rng.random() < 0.8 else ""), kind
+
+
+def coq_text(text):
+    return core.coq_string_bytes(text) if any(ord(c) < 32 and c != "\n" for c in text) else core.coq_string(text)
+
+
+def probe_charge_optional(ctx):
+    """Is the guard before words[8] the one of the code as it is (`len(line) > 8`: an 8-word ATOM record raises
+    IndexError) or the repaired one (`len(words) > 8`)?  Decides which of the two modelled readers is compared."""
+    o = impl_text_obs(EIGHT_WORD_TEXT)
+    if o[0] == "RAISE" and o[1] == "IndexError":
+        return False
+    if o[0] == "OK" and len(o[1]) == 2 and all(a[8] is None for a in o[1]):
+        return True
+    ctx.broke("correspondence-broken", "Model.Mol2Read.parse_atom_words (8-word ATOM record) vs Mol2Molecule.parse_atoms",
+              f"8-word ATOM record: neither IndexError (as coded) nor read with mol2charge None (repaired): {o[:2]!r}"[:300], {"text": EIGHT_WORD_TEXT})
+    return False
+
+
+def relevant_difference(exp, got):
+    """First difference between the text's molecule and the molecule read that can matter for the property: atom
+    count / order, atom name, Sybyl type, residue name, and the bonds as (unordered atom pair, type) in file order.
+    Atom ids, coordinates, residue number, the MOL2 charge column, bond ids and the order of a bond's two atoms
+    never reach a charge, a radius or the name-based transfer: a difference there is a matter for the
+    model-vs-code correspondence only, not a failure of the property."""
+    if got[0] != "OK":
+        return "raises:" + str(got[1]) if got[0] == "RAISE" else "adjacency-inconsistent"
+    if len(exp[1]) != len(got[1]):
+        return "atom-count"
+    for x, y in zip(exp[1], got[1]):
+        for f, k in (("atom-name", 1), ("atom-type", 5), ("atom-subst_name", 7)):
+            if x[k] != y[k]:
+                return f
+    if len(exp[2]) != len(got[2]):
+        return "bond-count"
+    for x, y in zip(exp[2], got[2]):
+        if {x[1], x[2]} != {y[1], y[2]} or (x[1] == x[2]) != (y[1] == y[2]):
+            return "bond-atoms"
+        if x[3] != y[3]:
+            return "bond-type"
+    return None
+
+
+def oracle_text(ctx, case, obs):
+    """Model-independent read-back: a text written from a known molecule must be read as that molecule."""
+    exp = case["expected"]
+    ctx.evaluated(("text", core.sha(case["text"])), len(exp[1]) >= 2 and len(exp[2]) >= 1)
+    ctx.count("search:text-" + case["kind"].split(":")[0])
+    if same_obs(exp, obs):
+        return True
+    field = relevant_difference(exp, obs)
+    if field is None:
+        ctx.count("search:text-differs-in-a-field-the-property-does-not-use:" + str(first_difference(exp, obs)))
+        return True
+    if case.get("no_charge") and obs[0] == "RAISE":
+        sig = {"site": "Mol2Molecule.parse_atoms", "condition": "atom-record-without-charge-field-raises", "error": obs[1]}
+        what = f"ATOM records with 8 fields (the charge is optional in the Tripos format, and the reader guards the access) raise {obs[1]}"
+    else:
+        sig = {"site": READ_SITE, "condition": "parsed-molecule-differs-from-text", "field": field}
+        what = f"the molecule read from a valid MOL2 text differs from the molecule the text was written from ({field})"
+    ctx.fail(sig, what, {"text": case["text"], "kind": case["kind"], "no_charge": bool(case.get("no_charge")),
+                         "expected": [list(map(list, exp[1])), list(map(list, exp[2]))]})
+    return False
+
+
+def text_level(ctx, rng, mol_cases, disagree):
+    """Correspondence (model vs code on texts) and search (read-back, 8-word records, text -> charges)."""
+    co = probe_charge_optional(ctx)
+    ctx.cov["reader_guard_before_charge_field"] = "len(words) > 8 (repaired)" if co else "len(line) > 8 (as coded: finding C16-F5)"
+    cob = "true" if co else "false"
+    thorough = ctx.thorough
+    valid, bad = [], []
+    # (a) the stored molecules, re-rendered
+    for f in stored_mol2_files():
+        raw = f.read_text()
+        try:
+            gt = simple_parse(raw)
+        except Exception as e:  # noqa
+            ctx.notes.append(f"stored MOL2 {f.name}: not in the conventional layout ({type(e).__name__}); used verbatim only")
+            continue
+        big = len(gt["atoms"]) > 45
+        valid.append({"kind": "stored:" + f.name, "text": raw, "expected": gt_expected(gt), "e2e": True})
+        for k in range(1 if (big and not thorough) else 3):
+            valid.append({"kind": "stored-rerendered:" + f.name, "text": render_text(rng, gt, header=gt["header"] if k == 0 else None),
+                          "expected": gt_expected(gt), "e2e": k == 0 and not big})
+    # (b) generated molecules in generated spellings
+    n_gen, n_bad, n_8 = (2500, 2500, 200) if thorough else (330, 300, 40)
+    for k in range(n_gen):
+        g = gen_organic(rng, maxn=14) if k % 3 else gen_wild(rng)
+        names = default_names(g.types) if rng.random() < 0.5 else random_names(rng, g.n())
+        rawt = [case_variant(rng, t) for t in g.types]
+        gt = gt_of(g.types, g.bonds, names, rng, raw_types=rawt, resname=rng.choice(["LIG", "LIG", "UNK", "<1>", "LIGAND", "A"]))
+        r = rng.random()
+        if r < 0.15:  # atom ids are for reference only: gaps / arbitrary ids, bonds still by position
+            for a in gt["atoms"]:
+                a["serial"] = a["serial"] * 3 + 10
+        if r > 0.8:
+            for a in gt["atoms"]:
+                a["extra"] = rng.choice([["DSPMOD"], ["BACKBONE|DICT|DIRECT"], ["****", "x"]])
+            for b in gt["bonds"]:
+                b["extra"] = rng.choice([[], ["BACKBONE"], ["DICT|INTERRES"]])
+        if rng.random() < 0.2:
+            for b in gt["bonds"]:
+                b["bid"] = rng.choice([b["bid"] + 100, b["bid"], 0, -b["bid"]])
+        valid.append({"kind": "generated", "text": render_text(rng, gt), "expected": gt_expected(gt), "e2e": k % 2 == 0})
+    # (c) 8-field ATOM records (no charge field): legal Tripos, supported types
+    for k in range(n_8):
+        g = gen_organic(rng, maxn=10)
+        gt = gt_of(g.types, g.bonds, default_names(g.types), rng)
+        some = rng.random() < 0.3
+        for j, a in enumerate(gt["atoms"]):
+            if not some or j % 2 == 0:
+                a["charge"] = None
+        valid.append({"kind": "generated-no-charge-field", "text": render_text(rng, gt), "expected": gt_expected(gt), "e2e": k % 4 == 0, "no_charge": True})
+    # (d) the malformed stream
+    for _ in range(n_bad):
+        t, kind = gen_malformed_text(rng)
+        bad.append({"kind": "malformed:" + kind, "text": t, "e2e": rng.random() < 0.25})
+    cdir = core.CORPUS / "C16"
+    if cdir.is_dir():
+        import json
+
+        for f in sorted(cdir.glob("*.json")):
+            cj = json.loads(f.read_text())
+            if "mol2_text" in cj:  # minimised texts (quirks of the reader): model vs code, text -> charges
+                bad.insert(0, {"kind": "corpus:" + f.stem, "text": cj["mol2_text"], "e2e": True})
+    allc = valid + bad
+    for c in allc:
+        c["obs"] = impl_text_obs(c["text"])
+    e2e = [c for c in allc if c["e2e"]]
+    for c in e2e:
+        c["obs_all"] = impl_all(c["text"])
+    try:
+        res_R = core.run_cases("C16R", HEADER_T, [f"run_read {cob} {coq_text(c['text'])}" for c in allc], chunk=max(8, len(allc) // 11 + 1))
+        res_E = core.run_cases("C16E", HEADER_T, [f"run_text_F {cob} {coq_text(c['text'])}" for c in e2e], chunk=max(4, len(e2e) // 11 + 1))
+    except core.CoqEvalError as e:
+        ctx.broke("correspondence-broken", "model evaluation failed (Model/Mol2Read.v)", str(e))
+        res_R = res_E = None
+    ok = True
+    if res_R is not None:
+        for c, s in zip(allc, res_R):
+            ctx.cov["correspondence_cases"] += 1
+            ctx.count("corr:text-" + c["kind"].split(":")[0] + (":" + c["kind"].split(":")[1] if c["kind"].startswith("malformed") else ""))
+            try:
+                mo = parse_model_read(s)
+            except Exception as e:  # noqa
+                mo = ("BAD", f"{type(e).__name__}: {s[:60]}")
+            if not same_obs(mo, c["obs"]):
+                ok = False
+                d = first_difference(mo, c["obs"]) if mo[0] == "OK" else f"model {mo[:2]!r}"
+                disagree("Model.Mol2Read.mol_of_string vs Mol2Molecule.read (text -> atoms and bonds, or exception class)",
+                         f"{c['kind']}: code {c['obs'][0]} {c['obs'][1] if c['obs'][0] != 'OK' else ''} / model {mo[0]} {mo[1] if mo[0] != 'OK' else ''}; first difference: {d}"[:400],
+                         {"text": c["text"], "kind": c["kind"]})
+        for c, s in zip(e2e, res_E):
+            ctx.cov["correspondence_cases"] += 1
+            ctx.count("corr:text-to-charges")
+            o = c["obs_all"]
+            if s.startswith("RAISE "):
+                if o.get("read_exc") != s[6:]:
+                    ok = False
+                    disagree("Model.Mol2Read.run_text_F (reader + assign_parameters) vs Mol2Molecule.read + assign_parameters on the text",
+                             f"{c['kind']}: model {s}, code read_exc={o.get('read_exc')}", {"text": c["text"], "kind": c["kind"]})
+                continue
+            mF = parse_params(s, parse_F)
+            if o.get("read_exc") or (o.get("exc") is None) != (mF is not None):
+                ok = False
+                disagree("Model.Mol2Read.run_text_F (reader + assign_parameters) vs Mol2Molecule.read + assign_parameters on the text",
+                         f"{c['kind']}: model {'values' if mF is not None else 'raises'}, code read_exc={o.get('read_exc')} exc={o.get('exc')}", {"text": c["text"], "kind": c["kind"]})
+                continue
+            if mF is None:
+                continue
+            dq = max([abs(a - b[1]) for a, b in zip(o["q"], mF)] + [0.0]) if len(mF) == len(o["q"]) else float("inf")
+            if [r100(v) for v in o["r"]] != [b[0] for b in mF] or not (dq <= 1e-12):
+                ok = False
+                disagree("Model.Mol2Read.run_text_F (reader + assign_parameters, binary64) vs Mol2Molecule.read + assign_parameters on the text",
+                         f"{c['kind']}: max |dq| = {dq!r}", {"text": c["text"], "kind": c["kind"]})
+    # ---- search: read-back of every valid text; charges must not depend on the spelling
+    for c in valid:
+        good = oracle_text(ctx, c, c["obs"])
+        if good and c["e2e"] and c["obs"][0] == "OK" and not c["obs_all"].get("exc"):
+            exp = c["expected"]
+            canon = mol2_text([a[5] for a in exp[1]], [(b[1], b[2], {v: k for k, v in BOND_TYPE_NAME.items()}[b[3]]) for b in exp[2]], [a[1] for a in exp[1]])
+            o2 = impl_all(canon)
+            if o2.get("read_exc") or o2.get("exc") or o2["q"] != c["obs_all"]["q"] or o2["r"] != c["obs_all"]["r"]:
+                ctx.fail({"site": READ_SITE, "condition": "charges-depend-on-the-spelling-of-the-text"},
+                         "two spellings of the same records (whitespace, column widths, line ends, header) give different charges/radii",
+                         {"text": c["text"], "kind": c["kind"]})
+    if not ok or ctx.broken:
+        # proof / correspondence broke: look much harder for a misread valid text
+        for k in range(3000):
+            g = gen_organic(rng, maxn=12) if k % 3 else gen_wild(rng)
+            gt = gt_of(g.types, g.bonds, random_names(rng, g.n()), rng, raw_types=[case_variant(rng, t) for t in g.types])
+            c = {"kind": "generated-extra", "text": render_text(rng, gt), "expected": gt_expected(gt)}
+            oracle_text(ctx, c, impl_text_obs(c["text"]))
+    for c in valid[:1] + valid[-1:]:
+        ctx.sample({"mol2_text_head": c["text"][:300], "kind": c["kind"], "read": c["obs"][0]})
+    return ok
+
+
+# --------------------------------------------------------------------------
 
 
 def run(ctx):
@@ -1083,7 +1610,14 @@ def run(ctx):
         "+ ligand HETATMs (MOL2 residue name equal to the PDB's, or a placeholder) + waters / other hetero groups / ions "
         "through main_driver; distinct by PDB text. Loop cases: residue lists (ligand, waters, hetero groups sharing atom "
         "names, protein residues, force-field hits on any of them) through the source text of the ligand loop, judged by "
-        "the generator's own labelling of the ligand residue; non-trivial when unambiguous, >= 2 residues, one the ligand."
+        "the generator's own labelling of the ligand residue; non-trivial when unambiguous, >= 2 residues, one the ligand. "
+        "Text cases: the stored MOL2 files verbatim and re-rendered from an independent reading (separators: blanks, tabs, "
+        "\\x0b \\x0c \\x1c-\\x1f; column widths; blank lines between records; comment/other sections before ATOM; with/without "
+        "SUBSTRUCTURE and junk after it; LF/CRLF/CR), generated molecules in such spellings (arbitrary atom/bond ids, status "
+        "fields, type words in any case, 8-field ATOM records), and a malformed stream (28 kinds: missing/extra fields, "
+        "non-numbers, bad types, duplicate names, bond words am/du/un/nc/unknown, atom ids 0/negative/out of range, sections "
+        "missing/reordered/embedded markers); read-back judged on the property-relevant fields (atom order, name, type, "
+        "residue name, bonds as unordered typed pairs); non-trivial with >= 2 atoms and >= 1 bond; distinct by text."
     )
     ok = core.proof_stage(ctx, "C16", THEOREMS, ALLOWED_AXIOMS)
     broken = not ok
@@ -1235,6 +1769,10 @@ def run(ctx):
                 if it != sT:
                     disagree("Model.Peoe.transfer_loop/written vs the ligand loop of main.non_trivial (source text executed)", f"impl={it} model={sT}", {"transfer": {k_: v_ for k_, v_ in c.items() if k_ != "impl_out"}})
 
+    # ---------------- the MOL2 text itself ------------------------------------
+    if not text_level(ctx, rng, cases, disagree):
+        broken = True
+
     # ---------------- search on the implementation --------------------------
     pool = [c for c in cases if not c["obs"].get("read_exc") and not c["obs"].get("exc")]
     extra = []
@@ -1293,10 +1831,15 @@ def run(ctx):
         "tables of pdb2pqr.ligand (RADII zap9/bondi, VALENCE_BY_ELEMENT, NONBONDED_BY_TYPE, POLY_TERMS, PEOE constants) are re-read from /repo on every run and compared with the model's",
         "the ligand loop is located in inspect.getsource(main.non_trivial) by its first and last statement and executed on stand-in objects",
         "complex oracle: baseline run without --ligand provides the force-field parameters of non-ligand atoms",
+        "modelled, not verified: Mol2Molecule.read / parse_atoms / parse_bonds (hand model Model/Mol2Read.v; tie = MOL2 texts through the real reader "
+        "opened as main.py opens the file, compared field by field or by exception class, and text -> charges end to end)",
+        "text oracle: the generator's molecule (or an independent conventional-layout reading of the stored files) is the ground truth of a text",
+        "which of the two modelled guards before words[8] applies (`len(line) > 8` as coded / `len(words) > 8` repaired) is probed on one 8-field record",
     ]
     ctx.assumptions += [
-        "atom names in a MOL2 file are unique (the reader raises otherwise), so a name denotes a position",
-        "bond endpoints are valid 1-based positions; supported bond types are 1, 2, 3, ar",
+        "atom names in a MOL2 file are unique (the reader raises otherwise: modelled), so a name denotes a position",
+        "PEOE theorems: bond endpoints are valid 1-based positions; supported bond types are 1, 2, 3, ar (what the reader does otherwise is modelled in Mol2Read.v)",
+        "reader model: ASCII text; int()/float() as in Model/PqrFormat.v (float() an arbitrary oracle in the theorems); ring/torsion perception does not raise (molecules far below Python's recursion limit)",
         "math.isclose(x, 0.0) is x == 0.0; division by zero does not occur (normalisers positive for all supported types: C16_supported_complete)",
     ]
 
@@ -1330,6 +1873,14 @@ def replay(ctx, data):
         oracle_transfer(ctx, case["transfer"], out)
         after = len(ctx.failures) + sum(ctx.known_hits.values())
         print("replay:", "FAILS" if after > before else "passes", "| loop output (id=parameters ... | missing ids):", out)
+        return 1 if after > before else 0
+    if "text" in case and "expected" in case:
+        exp = ("OK", [tuple(a) for a in case["expected"][0]], [tuple(b) for b in case["expected"][1]])
+        obs = impl_text_obs(case["text"])
+        before = len(ctx.failures) + sum(ctx.known_hits.values())
+        oracle_text(ctx, {"text": case["text"], "kind": case.get("kind", "replay"), "expected": exp, "no_charge": case.get("no_charge")}, obs)
+        after = len(ctx.failures) + sum(ctx.known_hits.values())
+        print("replay:", "FAILS" if after > before else "passes", "| reader:", obs[0], obs[1] if obs[0] != "OK" else f"{len(obs[1])} atoms {len(obs[2])} bonds")
         return 1 if after > before else 0
     if "types" in case:
         names = case.get("names") or default_names(case["types"])
